@@ -66,7 +66,7 @@ let nontrivial profile (st : Gen.st) (h : Stats.t) (c : canon) : bool =
       | "alias" -> fl "alias_probe" > 0 && g "EAssign" >= 1 && List.length c.printed >= 1
       | "closure" -> fl "closure_escape" > 0 || (g "closures_capturing" >= 1 && fl "firstclass_call" > 0)
       | "shadow" -> g "shadowing_binders" >= 2
-      | "loops" -> g "EWhile" + g "EDoWhile" + g "EFor" >= 1
+      | "loops" -> g "EWhile" + g "EDoWhile" + g "EFor" + g "EForIn" >= 1
       | "records" -> g "ERecNew" >= 1 && g "EField" >= 1
       | "arrays" -> g "EArrLit" >= 1 && g "EIndex" >= 1
       | "catch" -> List.exists (fun m -> List.mem m c.printed) st.Gen.markers
